@@ -721,31 +721,53 @@ func c07Check(c *c07Case) string {
 // c07NewClaims: NewClaims(p) reports p, for every registered name; unknown
 // names are errors; "" is an error or profile 1.
 func c07NewClaims(regs []regProf) string {
-	for _, n := range c07Names {
-		c, err := psatoken.NewClaims(n)
-		r := findProf(regs, n)
-		if r == nil {
-			if err == nil {
-				return fmt.Sprintf("NewClaims(%q) succeeds (%T) although the profile is not registered", n, c)
+	// second pass: "NewClaims(p) reports p" whatever happened to the instances
+	// handed out before - the first pass's results are changed IN PLACE through
+	// everything a caller can reach (exported fields, pointees, setters)
+	var made []psatoken.IClaims
+	for pass := 0; pass < 2; pass++ {
+		ctx := ""
+		if pass == 1 {
+			ctx = " (after the instances created before were modified in place by their holder)"
+			for i, c := range made {
+				func() {
+					defer func() { _ = recover() }()
+					scribbleInPlace(c, byte(i))
+				}()
 			}
-			continue
 		}
-		if err != nil {
-			return fmt.Sprintf("NewClaims(%q) fails although the profile is registered: %v", n, err)
+		for _, n := range c07Names {
+			c, err := psatoken.NewClaims(n)
+			r := findProf(regs, n)
+			if r == nil {
+				if err == nil {
+					return fmt.Sprintf("NewClaims(%q) succeeds (%T) although the profile is not registered%s", n, c, ctx)
+				}
+				continue
+			}
+			if err != nil {
+				return fmt.Sprintf("NewClaims(%q) fails although the profile is registered%s: %v", n, ctx, err)
+			}
+			if got := fmt.Sprintf("%T", c); got != r.Type {
+				return fmt.Sprintf("NewClaims(%q) returns %s, not %s%s", n, got, r.Type, ctx)
+			}
+			if p, perr := c.GetProfile(); perr != nil || p != n {
+				return fmt.Sprintf("NewClaims(%q).GetProfile() = %q, %v%s", n, p, perr, ctx)
+			}
+			if pass == 0 {
+				made = append(made, c)
+			}
 		}
-		if got := fmt.Sprintf("%T", c); got != r.Type {
-			return fmt.Sprintf("NewClaims(%q) returns %s, not %s", n, got, r.Type)
-		}
-		if p, perr := c.GetProfile(); perr != nil || p != n {
-			return fmt.Sprintf("NewClaims(%q).GetProfile() = %q, %v", n, p, perr)
-		}
-	}
-	if c, err := psatoken.NewClaims(""); err == nil {
-		if fmt.Sprintf("%T", c) != "*psatoken.P1Claims" {
-			return fmt.Sprintf(`NewClaims("") returns %T`, c)
-		}
-		if p, perr := c.GetProfile(); perr != nil || p != P1Name {
-			return fmt.Sprintf(`NewClaims("").GetProfile() = %q, %v`, p, perr)
+		if c, err := psatoken.NewClaims(""); err == nil {
+			if fmt.Sprintf("%T", c) != "*psatoken.P1Claims" {
+				return fmt.Sprintf(`NewClaims("") returns %T%s`, c, ctx)
+			}
+			if p, perr := c.GetProfile(); perr != nil || p != P1Name {
+				return fmt.Sprintf(`NewClaims("").GetProfile() = %q, %v%s`, p, perr, ctx)
+			}
+			if pass == 0 {
+				made = append(made, c)
+			}
 		}
 	}
 	return ""
